@@ -145,16 +145,19 @@ func (p *PanicV) String() string {
 // ---- State -------------------------------------------------------------
 
 type State struct {
-	pc     []*Term
-	heap   map[int]Value // overlay over baseHeap
-	base   map[int]Value
-	nextID int
-	steps  int
-	sites  map[string]*Term // known-finding site flags (Bool terms)
-	model  *Model           // a model of pc if known (may be nil)
-	trail  []string         // choice trail (for reporting)
-	obs    []obsRec         // vObserve records along this path
-	dirty  []int            // append-only log of object ids written (for merge-by-shape)
+	pc       []*Term
+	heap     map[int]Value // overlay over baseHeap
+	base     map[int]Value
+	nextID   int
+	steps    int
+	sites    map[string]*Term // known-finding site flags (Bool terms)
+	model    *Model           // a model of pc if known (may be nil)
+	trail    []string         // choice trail (for reporting)
+	obs      []obsRec         // vObserve records along this path
+	dirty    []int            // append-only log of object ids written (for merge-by-shape)
+	fs       []fsEntry        // model file system: (name, content object), copy-on-write
+	fsNoDir  []StrV           // directories declared missing by a harness
+	tmpCount int
 }
 
 type obsRec struct {
@@ -178,6 +181,7 @@ func (st *State) fork() *State {
 	n.trail = st.trail[:len(st.trail):len(st.trail)]
 	n.obs = st.obs[:len(st.obs):len(st.obs)]
 	n.dirty = st.dirty[:len(st.dirty):len(st.dirty)]
+	n.fs, n.fsNoDir, n.tmpCount = st.fs, st.fsNoDir, st.tmpCount
 	return n
 }
 
